@@ -196,11 +196,16 @@ def rule_dsitem(ctx, R):
     R.check(got == wantl, 'r(8+i) ^= word i of the line', src, expected=wantl[:3], found=got[:4])
     line_piece(o.between('randomx_sshash_prefetch', 'randomx_sshash_end'), 'next cache line')
     # (c) result store of the initialisation loop
-    a0 = o.sym('init_block_loop') if o.has('init_block_loop') else None
-    if a0 is None:
-        raise AnalysisBroken('X86-DSITEM: init_block_loop not found')
-    seq = o.between(a0, o.sym('randomx_program_epilogue'))
-    seq = seq[:next((k for k, i in enumerate(seq) if i[1].startswith('j')), len(seq))]
+    # the loop of the exported initialisation routine: from the first instruction after its call (the call is a data byte + offset in the source)
+    # to the conditional branch that closes the loop
+    whole = o.between(o.sym('randomx_dataset_init'), o.sym('randomx_program_epilogue'))
+    end = next((k for k, i in enumerate(whole) if i[1].startswith('j') and i[1] != 'jmp'), None)
+    if end is None:
+        raise AnalysisBroken('X86-DSITEM: no loop branch in randomx_dataset_init')
+    first = next((k for k, i in enumerate(whole[:end]) if i[1] == 'mov' and ops(i)[0].startswith('QWORD PTR [rsi')), None)
+    if first is None:
+        raise AnalysisBroken('X86-DSITEM: no store through rsi in the loop of randomx_dataset_init')
+    seq = whole[first:end]
     st = sorted((ops(i)[0], ops(i)[1]) for i in seq if i[1] == 'mov' and ops(i)[0].startswith('QWORD PTR [rsi'))
     wants = sorted(('QWORD PTR [rsi%s]' % ('+%#x' % (8 * k) if k else ''), 'r%d' % (8 + k)) for k in range(8))
     R.check(st == wants, 'result: r8..r15 at output + 8i', src, expected=wants[:3], found=st[:4])
